@@ -152,5 +152,92 @@ theorem sampleStep_lengths (s : St K) (te : Array K) (fwd : Bool) (xold x : K) (
   rw [← hs]
   simp [h]
 
+/-! ### backward runs: the mirror image of forward runs on the negated times -/
+theorem inUpper_mirror (tol x t : K) : inUpper false tol x t = inUpper true tol (-x) (-t) := by
+  simp only [inUpper, if_true, Bool.false_eq_true, if_false]
+  apply decide_eq_decide.mpr
+  constructor <;> intro h <;> linarith
+
+theorem inLower_mirror (tol x t : K) : inLower false tol x t = inLower true tol (-x) (-t) := by
+  simp only [inLower, if_true, Bool.false_eq_true, if_false]
+  apply decide_eq_decide.mpr
+  constructor <;> intro h <;> linarith
+
+theorem takeWhile_map_neg (p : K → Bool) (l : List K) :
+    (l.map Neg.neg).takeWhile p = (l.takeWhile (fun t => p (-t))).map Neg.neg := by
+  induction l with
+  | nil => rfl
+  | cons a l ih => simp only [List.map_cons, List.takeWhile_cons]; split <;> simp [ih]
+
+theorem dropWhile_map_neg (p : K → Bool) (l : List K) :
+    (l.map Neg.neg).dropWhile p = (l.dropWhile (fun t => p (-t))).map Neg.neg := by
+  induction l with
+  | nil => rfl
+  | cons a l ih => simp only [List.map_cons, List.dropWhile_cons]; split <;> simp [ih]
+
+theorem filter_map_neg (p : K → Bool) (l : List K) :
+    (l.map Neg.neg).filter p = (l.filter (fun t => p (-t))).map Neg.neg := by
+  induction l with
+  | nil => rfl
+  | cons a l ih => simp only [List.map_cons, List.filter_cons]; split <;> simp [ih]
+
+theorem stepKept_mirror (tol xold x : K) (rem : List K) :
+    stepKept false tol xold x rem = (stepKept true tol (-xold) (-x) (rem.map Neg.neg)).map Neg.neg := by
+  unfold stepKept
+  rw [takeWhile_map_neg, filter_map_neg, List.map_map]
+  have : (Neg.neg ∘ Neg.neg : K → K) = id := by funext t; simp
+  rw [this, List.map_id]
+  congr 1
+  · funext t; exact inLower_mirror tol xold t
+  · congr 1; funext t; exact inUpper_mirror tol x t
+
+theorem stepRest_mirror (tol x : K) (rem : List K) :
+    (stepRest false tol x rem).map Neg.neg = stepRest true tol (-x) (rem.map Neg.neg) := by
+  unfold stepRest
+  rw [dropWhile_map_neg]
+  congr 2
+  funext t; exact inUpper_mirror tol x t
+
+/-- a backward run is the mirror image of a forward run on the negated times -/
+theorem runTimes_mirror (tol : K) : ∀ (xs rem : List K) (xprev : K),
+    runTimes false tol rem xprev xs = (runTimes true tol (rem.map Neg.neg) (-xprev) (xs.map Neg.neg)).map Neg.neg := by
+  intro xs
+  induction xs with
+  | nil => intro rem xprev; simp [runTimes]
+  | cons x xs ih =>
+    intro rem xprev
+    simp only [runTimes, List.map_cons, List.map_append]
+    rw [stepKept_mirror, ih, stepRest_mirror]
+
+theorem runRest_mirror (tol : K) : ∀ (xs rem : List K),
+    (runRest false tol rem xs).map Neg.neg = runRest true tol (rem.map Neg.neg) (xs.map Neg.neg) := by
+  intro xs
+  induction xs with
+  | nil => intro rem; simp [runRest]
+  | cons x xs ih =>
+    intro rem
+    simp only [runRest, List.map_cons]
+    rw [ih, stepRest_mirror]
+
+/-- **C05, exact times (backward).**  Requests sorted descending, all strictly beyond the window of `x0`, none beyond
+    the window of the final accepted point: the steps report exactly the requested list, in order. -/
+theorem teval_exact_times_backward {tol : K} (htol : 0 ≤ tol) (rem : List K) (x0 : K) (xs : List K) (xlast : K)
+    (hs : rem.Pairwise (· ≥ ·)) (hgt : ∀ t ∈ rem, t < x0 - tol) (hc : List.IsChain (· > ·) (x0 :: xs))
+    (hl : xs.getLast? = some xlast) (hle : ∀ t ∈ rem, xlast - tol ≤ t) :
+    runTimes false tol rem x0 xs = rem := by
+  rw [runTimes_mirror]
+  have h := teval_exact_times_forward htol (rem.map Neg.neg) (-x0) (xs.map Neg.neg) (-xlast)
+    (by rw [List.pairwise_map]; exact hs.imp (fun h => neg_le_neg h))
+    (by intro t ht; obtain ⟨u, hu, rfl⟩ := List.mem_map.mp ht; have := hgt u hu; linarith)
+    (by
+      have : List.IsChain (· < ·) ((x0 :: xs).map Neg.neg) := by
+        rw [List.isChain_map]; exact hc.imp (by intro a b h; exact neg_lt_neg h)
+      simpa using this)
+    (by simp [List.getLast?_map, hl])
+    (by intro t ht; obtain ⟨u, hu, rfl⟩ := List.mem_map.mp ht; have := hle u hu; linarith)
+  rw [h, List.map_map]
+  have : (Neg.neg ∘ Neg.neg : K → K) = id := by funext t; simp
+  rw [this, List.map_id]
+
 end
 end SolOutM
